@@ -223,3 +223,108 @@ M('c09-asgi-access-route-iterates-optional-forwarded', 'C09', 'R9', 'falcon/asgi
   """                for hop in self.forwarded or ():
 """, """                for hop in self.forwarded:
 """, also=('C06',))
+
+# ---- wave 5
+# --------------------------------------------------------------------- R10
+# the wildcard tolerated as a MEMBER of a comma-split list: `"a,*,b"` (one valid tag) is read as ['*']
+_ETAGS_LIST_START = """    etags: List[Union[ETag, Literal['*']]] = []
+"""
+M('c09-etags-wildcard-member-of-comma-split', 'C09', 'R10', 'falcon/request_helpers.py', _ETAGS_LIST_START,
+  """    if '*' in (member.strip() for member in etag_str.split(',')):
+        return ['*']
+
+""" + _ETAGS_LIST_START)
+M('c09-etags-wildcard-substring', 'C09', 'R10', 'falcon/request_helpers.py',
+  """    if etag_str == '*':
+        return ['*']
+""", """    if '*' in etag_str:
+        return ['*']
+""")
+M('c09-etags-wildcard-prefix', 'C09', 'R10', 'falcon/request_helpers.py',
+  """    if etag_str == '*':
+        return ['*']
+""", """    if etag_str.startswith('*'):
+        return ['*']
+""")
+M('c09-etags-wildcard-appended-per-piece', 'C09', 'R10', 'falcon/request_helpers.py', _ETAGS_LIST_START,
+  _ETAGS_LIST_START + """    for member in etag_str.split(','):
+        if member.strip() == '*':
+            etags.append('*')
+""")
+# pieces of a comma split decide the answer (`"a, ,b"` is one tag, not a list with a blank member)
+M('c09-etags-comma-pieces-decide', 'C09', 'R10', 'falcon/request_helpers.py', _ETAGS_LIST_START,
+  _ETAGS_LIST_START + """    if not all(m.strip() for m in etag_str.split(',')):
+        return None
+""")
+
+# --------------------------------------------------------------------- R11 (and R7 on the table-driven shape)
+_FWD_TABLE = {'file': 'falcon/forwarded.py', 'old': "_FORWARDED_PAIR_RE = re.compile(_FORWARDED_PAIR)\n",
+              'new': "_FORWARDED_PAIR_RE = re.compile(_FORWARDED_PAIR)\n\n"
+                     "_PARAM_ATTRS = {'by': 'dest', 'for': 'src', 'host': 'host', 'proto': 'scheme'}\n"}
+_FWD_CREATE = """                # NOTE(kgriffs): If this is the first pair we've encountered
+                # for this forwarded-element, initialize a new object.
+                if not parsed_element:
+                    parsed_element = Forwarded()
+
+"""
+_FWD_CHAIN = """                if name == 'by':
+                    parsed_element.dest = value
+                elif name == 'for':
+                    parsed_element.src = value
+                elif name == 'host':
+                    parsed_element.host = value
+                elif name == 'proto':
+                    # NOTE(kgriffs): RFC 7239 only requires that
+                    # the "proto" value conform to the Host ABNF
+                    # described in RFC 7230. The Host ABNF, in turn,
+                    # does not require that the scheme be in any
+                    # particular case, so we normalize it here to be
+                    # consistent with the WSGI spec that *does*
+                    # require the value of 'wsgi.url_scheme' to be
+                    # either 'http' or 'https' (case-sensitive).
+                    parsed_element.scheme = value.lower()
+"""
+_FWD_BODY = """                name = name.lower()
+
+                if value[0] == '"':
+                    value = unquote_string(value)
+
+""" + _FWD_CREATE + _FWD_CHAIN
+# table-driven dispatch that skips unknown names BEFORE the element is created: an element made only of
+# extension parameters yields no hop (C19 also sees the new module-level dict)
+M2('c09-forwarded-table-skips-unknown-before-create', 'C09', 'R11', [_FWD_TABLE, {'file': 'falcon/forwarded.py', 'old': _FWD_BODY, 'new': """                attr = _PARAM_ATTRS.get(name.lower())
+                if attr is None:
+                    continue
+
+                if value[0] == '"':
+                    value = unquote_string(value)
+
+                if attr == 'scheme':
+                    value = value.lower()
+
+                if not parsed_element:
+                    parsed_element = Forwarded()
+
+                setattr(parsed_element, attr, value)
+"""}], also=('C19',))
+M('c09-forwarded-skips-unknown-names', 'C09', 'R11', 'falcon/forwarded.py',
+  """                if value[0] == '"':
+                    value = unquote_string(value)
+""", """                if name not in ('by', 'for', 'host', 'proto'):
+                    continue
+
+                if value[0] == '"':
+                    value = unquote_string(value)
+""")
+M('c09-forwarded-element-created-for-known-names-only', 'C09', 'R11', 'falcon/forwarded.py',
+  """                if not parsed_element:
+                    parsed_element = Forwarded()
+""", """                if not parsed_element and name in ('by', 'for', 'host', 'proto'):
+                    parsed_element = Forwarded()
+""")
+# the table-driven shape read by R7: every value is case-folded, not only the scheme
+M2('c09-forwarded-table-lowercases-every-value', 'C09', 'R7', [_FWD_TABLE, {'file': 'falcon/forwarded.py', 'old': _FWD_CHAIN, 'new': """                attr = _PARAM_ATTRS.get(name)
+                if attr is not None:
+                    value = value.lower()
+                    setattr(parsed_element, attr, value)
+"""}], also=('C19',))
